@@ -159,6 +159,87 @@ Example C04_bearer_by_generic_lookup_refuted :
   slot_client cfg nx db SBearer (mint cfg (MTok KAccess) (PS "n") (PS "r") (PS "sid") (PS "99")) = Some (PS "client_1").
 Proof. exact bearer_by_generic_lookup_refuted. Qed.
 
+(* REQUESTS IN FLIGHT (Model/TokenFmt.v tendpoint / run_tflight, compared by harness/drv_C04.py with the real userinfo,
+   introspection, token_revocation and token endpoint objects on flights of 2-4 requests that present tokens of
+   different sessions, the calls parse_request / process_request / do_response interleaved in every order).
+   An endpoint is a state-passing machine; town_answer E r is what request r gets when it is alone. *)
+
+(* Resolution is a function of the presented value: at every slot, whatever the provider minted for session sid
+   resolves - if it resolves - to sid (slot_resolve has no argument that another request could have set). *)
+Theorem C04_minted_resolves_to_own_session_at_every_slot : forall cfg expired s m nonce rnd sid exp x,
+  slot_resolve cfg expired s (mint cfg m nonce rnd sid exp) = TOk x -> x = Some sid.
+Proof. exact slot_resolve_minted. Qed.
+Print Assumptions C04_minted_resolves_to_own_session_at_every_slot.
+
+(* Whatever the schedule (any list of calls, any request numbers): if what an endpoint hands out does not depend on
+   the state it carries between calls, every answer of an interleaved run is the answer the request it belongs to
+   gets alone at a fresh endpoint. *)
+Theorem C04_flight_independent : forall (S : Type) (E : tendpoint S),
+  (forall s s' r, snd (te_parse E s r) = snd (te_parse E s' r)) ->
+  (forall s s' r, snd (te_process E s r) = snd (te_process E s' r)) ->
+  (forall s s' r a, snd (te_respond E s r a) = snd (te_respond E s' r a)) ->
+  forall reqs sched i a, In (i, a) (run_tflight E reqs sched) ->
+  exists r, nth_error reqs i = Some r /\ a = town_answer E r.
+Proof. exact tflight_independent. Qed.
+Print Assumptions C04_flight_independent.
+(* the model of the token-resolving endpoints keeps nothing between calls ... *)
+Theorem C04_endpoint_keeps_nothing : forall P (s s' : unit) r a,
+  te_parse (tep_model P) s r = te_parse (tep_model P) s' r /\ te_process (tep_model P) s r = te_process (tep_model P) s' r
+  /\ te_respond (tep_model P) s r a = te_respond (tep_model P) s' r a.
+Proof. exact tmodel_keeps_nothing. Qed.
+Print Assumptions C04_endpoint_keeps_nothing.
+(* ... so for every interleaving the answer of request i equals its answer alone ... *)
+Theorem C04_flight_answer_own : forall P reqs sched i a,
+  In (i, a) (run_tflight (tep_model P) reqs sched) -> exists r, nth_error reqs i = Some r /\ a = tanswer1 P r.
+Proof. exact tflight_model. Qed.
+Print Assumptions C04_flight_answer_own.
+(* ... it does not depend on any other request's token: the rest of the flight and the schedule can be exchanged *)
+Theorem C04_flight_others_irrelevant : forall P reqs reqs' sched sched' i r a a',
+  nth_error reqs i = Some r -> nth_error reqs' i = Some r ->
+  In (i, a) (run_tflight (tep_model P) reqs sched) -> In (i, a') (run_tflight (tep_model P) reqs' sched') -> a = a'.
+Proof. exact tflight_others_irrelevant. Qed.
+Print Assumptions C04_flight_others_irrelevant.
+(* and each request does get that answer, whatever happens for other requests in between *)
+Theorem C04_flight_answers : forall P reqs i r a b c d,
+  nth_error reqs i = Some r -> tabout i b = false -> tabout i c = false ->
+  In (i, tanswer1 P r)
+     (run_tflight (tep_model P) reqs (a ++ TvParse i :: b ++ TvProcess i :: c ++ TvRespond i :: d)%list).
+Proof. exact tflight_answers. Qed.
+Print Assumptions C04_flight_answers.
+(* whose session: whatever else is in flight, a session handed out for request i is the one on record for the
+   session id the token of request i was minted for; at a class slot the token is of that class; every endpoint
+   but userinfo serves the client of that session only *)
+Theorem C04_flight_bound_to_session : forall P reqs sched i s,
+  In (i, TSession s) (run_tflight (tep_model P) reqs sched) ->
+  exists r, nth_error reqs i = Some r /\ tanswer1 P r = TSession s /\
+    forall m nonce rnd sid exp, r_tok r = mint (p_cfg P) m nonce rnd sid exp ->
+      assoc sid (p_db P) = Some s /\ (forall h, slot_handler (ep_slot (r_ep r)) = Some h -> m = MTok h) /\
+      (r_ep r <> EpUserinfo -> s_client s = r_by r).
+Proof. exact tflight_bound_to_session. Qed.
+Print Assumptions C04_flight_bound_to_session.
+Theorem C04_flight_userinfo_access_token : forall P nonce rnd sid exp by_,
+  p_expired P exp = false ->
+  tanswer1 P (mkTreq EpUserinfo (mint (p_cfg P) (MTok KAccess) nonce rnd sid exp) by_) =
+  match assoc sid (p_db P) with Some s => TSession s | None => TRefused end.
+Proof. exact tanswer1_userinfo_access. Qed.
+Print Assumptions C04_flight_userinfo_access_token.
+(* the refuted variant: an endpoint object that remembers what parse_request resolved and lets the next
+   process_request use it answers every request correctly alone and in sequence, and with
+   parse 0, parse 1, process 0 answers the token of session 0 with session 1 *)
+Example C04_remembering_endpoint_refuted :
+  let reqs := [ex_req (PS "sid-0"); ex_req (PS "sid-1")] in
+  let s0 := mkSess 0 (PS "diana") (PS "client_1") in
+  let s1 := mkSess 1 (PS "babs") (PS "client_2") in
+  town_answer (tep_remember ex_prov) (ex_req (PS "sid-0")) = TSession s0 /\
+  town_answer (tep_remember ex_prov) (ex_req (PS "sid-1")) = TSession s1 /\
+  run_tflight (tep_remember ex_prov) reqs [TvParse 0; TvProcess 0; TvRespond 0; TvParse 1; TvProcess 1; TvRespond 1]
+    = [(0%nat, TSession s0); (1%nat, TSession s1)] /\
+  run_tflight (tep_remember ex_prov) reqs [TvParse 0; TvParse 1; TvProcess 0; TvRespond 0; TvProcess 1; TvRespond 1]
+    = [(0%nat, TSession s1); (1%nat, TSession s1)] /\
+  run_tflight (tep_model ex_prov) reqs [TvParse 0; TvParse 1; TvProcess 0; TvRespond 0; TvProcess 1; TvRespond 1]
+    = [(0%nat, TSession s0); (1%nat, TSession s1)].
+Proof. exact remembering_endpoint_refuted. Qed.
+
 (* the framing codec under all of this: every list of every string *)
 Theorem C04_lv_roundtrip : forall l, lv_unpack (lv_pack l) = Ok l.
 Proof. exact lv_roundtrip. Qed.
@@ -177,3 +258,11 @@ Theorem C04_is_expired_is_source : forall exp when clock,
   = Ok (VBool (if (exp <? 0)%Z then false else ((if (when =? 0)%Z then clock else when) >? exp)%Z)).
 Proof. exact Src_refine.is_expired_refines. Qed.
 Print Assumptions C04_is_expired_is_source.
+
+(* the plaintext of an opaque token is util.lv_pack of its fields: the model's lv_pack is the CURRENT source function
+   (coq/Gen/Src_db.v, translated by harness/py2v.py on every run) *)
+From Verif Require Gen.Src_db.
+Theorem C04_lv_pack_is_source : forall args clock,
+  Src_db.lv_pack_src (VList (List.map VStr args)) clock = Ok (VStr (lv_pack args)).
+Proof. exact Src_refine.lv_pack_refines. Qed.
+Print Assumptions C04_lv_pack_is_source.
